@@ -1,4 +1,5 @@
 import Adsb.App
+import Adsb.Gen.Formulas
 import Mathlib.Analysis.SpecialFunctions.Trigonometric.Basic
 import Mathlib.Analysis.SpecialFunctions.Log.Basic
 import Mathlib.Tactic.Linarith
@@ -85,5 +86,30 @@ theorem pan_translates (scale lat0 lon0 lat1 lon1 lat lon : ℝ) :
     (xy scale lat1 lon1 lat lon).1 = (xy scale lat0 lon0 lat lon).1 - (xy scale lat0 lon0 lat1 lon1).1 ∧
     (xy scale lat1 lon1 lat lon).2 = (xy scale lat0 lon0 lat lon).2 - (xy scale lat0 lon0 lat1 lon1).2 := by
   rw [xy_eq, xy_eq, xy_eq]; constructor <;> simp only <;> ring
+
+/-! ## the projection as translated from the source on this run -/
+
+/-- `Settings::to_mercator` / `to_xy` as written in `radar.rs` today (translated by `tools/rust2lean.py`, generic in the number type) are,
+term for term, the definitions the theorems above are about -/
+theorem src_toMercator_eq {α : Type} (H : MercOps α) (sc lat lon : α) :
+    Gen.toMercatorSrc H sc lat lon = toMercator H.arith H.mercN (H.mul (H.lit 2) H.pi) sc lat lon := rfl
+
+theorem src_toXY_eq {α : Type} (H : MercOps α) (sc lat0 lon0 lat lon : α) :
+    Gen.toXYSrc H sc lat0 lon0 lat lon = toXY H.arith H.mercN (H.mul (H.lit 2) H.pi) sc lat0 lon0 lat lon := rfl
+
+/-- the real-number instance of the source's operations -/
+noncomputable def realMerc : MercOps ℝ :=
+  { add := (· + ·), sub := (· - ·), mul := (· * ·), div := (· / ·), neg := fun x => -x, lit := fun n => (n : ℝ), pi := π,
+    ln := Real.log, tan := Real.tan }
+
+/-- **the projection of the source text is the projection the map theorems are about** (over the reals) -/
+theorem src_xy (scale lat0 lon0 lat lon : ℝ) : Gen.toXYSrc realMerc scale lat0 lon0 lat lon = xy scale lat0 lon0 lat lon := by
+  rw [src_toXY_eq]
+  unfold xy
+  have hm : realMerc.mercN = mercN := by
+    funext l; unfold MercOps.mercN realMerc mercN; simp only [Nat.cast_ofNat]
+  have ha : realMerc.arith = realArith := rfl
+  rw [hm, ha]
+  simp [realMerc]
 
 end Adsb.C18b
